@@ -57,6 +57,11 @@ fn check_raw32(b: &[u8; 32], st: &mut Stats) -> Result<(), String> {
         if a == other || a == NodeId::new(&other) {
             return Err("equal to a different value".into());
         }
+        // a serialisation that fails in the writer must not affect the next one
+        let mut small = [0u8; 10];
+        if serde_json::to_writer(&mut small[..], &a).is_ok() {
+            return Err("serialising into a 10-byte buffer succeeded".into());
+        }
         let js = serde_json::to_string(&a).map_err(|e| format!("serialize: {e}"))?;
         let want = format!("\"0x{}\"", hex(b));
         if js != want {
